@@ -9,6 +9,7 @@ import common as C
 import fuzzylite as fl
 import gen_engine as G
 from props import c01
+from streams import engine_io as S_IO
 
 PID = "C02"
 MODULES = ["FlVerif.Props.C02"]
@@ -25,6 +26,7 @@ RULE = ("engines with the General activation method (Mamdani, Larsen, Takagi-Sug
         "floats; (i)-(iii) are compared with each other (values, fuzzy outputs, exceptions) and (i) with the Lean model. "
         "non-trivial: batch of >= 2 rows with at least one finite output and (a NaN raw value filled by lock-previous / "
         "default, or two different output values); distinct = distinct (engine, batch)")
+RULE += (" Stream `engine-io` (fv/streams/engine_io.py): look-ups by name / index (positive, negative, bool, missing), input_values / output_values / values on float, 0-d and 1-D values, the input_values setter with 0-d / 1-D / 2-D / higher-dimensional arrays, against Op/EngineIO.lean and Op/InputValues.lean.")
 ASSUMPTIONS = ["batch and row results are produced by the same float operations, so they are compared within 1e-12; the "
                "model comparison uses 1e-7 and the fragile-point filter of C01"]
 LEVEL_TEXT = ("Lean theorems: batch_eq_rows (the single fill-forward / default / clip pass of OutputVariable.defuzzify over a "
@@ -115,10 +117,12 @@ def same_obs(a, b, tol=1e-12):
 
 
 def key(case):
-    return "batch"
+    return case.get("stream") or "batch"
 
 
 def oracle(case):
+    if case.get("stream"):
+        return S_IO.oracle(case)       # accessors of Engine (look-ups, input_values / output_values / values)
     desc, rows = case["engine"], case["rows"]
     if case.get("first"):
         # two successive calls: the second batch continues from the state the first one left
@@ -212,6 +216,8 @@ def correspond(ctx):
                 st.skipped_fragile += 1
             else:
                 mism.append({"case": case, "impl": a["values"], "model": str(m[1])[:300], "what": bad})
+    # the accessors of Engine against Op/EngineIO.lean, Op/InputValues.lean (models of the code ties C02.code_*)
+    mism += S_IO.run(ctx)
     return mism
 
 
